@@ -114,3 +114,9 @@ Lemma clamp_order_spec requested op_size :
   clamp_order requested op_size = Nat.min requested op_size /\
   (op_size <= requested -> clamp_order requested op_size = op_size)%nat.
 Proof. unfold clamp_order. destruct (Nat.ltb_spec op_size requested); lia. Qed.
+
+(* ---- (5) options ---- *)
+Lemma effective_n_verbose ca v1 v2 n n_rel : effective_n ca v1 n n_rel = effective_n ca v2 n n_rel.
+Proof. reflexivity. Qed.
+Lemma effective_n_compute_all v n n_rel : effective_n true v n n_rel = Some n_rel.
+Proof. reflexivity. Qed.
